@@ -607,8 +607,8 @@ def judge_set(case, f, ctx, answers):
                                          case["delivery"], ", bad=%s" % case["bad"] if case["bad"] else "")
     if crashed(f, "set", r, desc, lib.get("crash")):
         return
-    if r.get("uncaught", "").endswith("save_to_json_file"):
-        f.count("set:json-writer-failed-midway(C17)")
+    if r.get("uncaught", "").endswith(("save_to_json_file", "save_to_yaml_file")):
+        f.count("set:dumper-failed-midway-in-%s(C17)" % r["uncaught"].rsplit(":", 1)[-1])
         return
     f.count("set:exit=%d" % r["rc"])
     to_file = ctx["farg"] == "path"
@@ -1682,10 +1682,22 @@ register("paths", gen_paths, prep_paths, judge_paths)
 
 def run_chunk(job):
     """(seed, [cases]) -> per-case results.  One driver call per chunk."""
+    import sys
     cases = job
     core.use_repo()
     prepared = []
     reqs = []
+    real_out, real_err = sys.stdout, sys.stderr
+    sink = open(os.devnull, "w")
+    sys.stdout, sys.stderr = sink, sink          # the library's logger writes errors whatever its settings
+    try:
+        return _run_chunk(cases, prepared, reqs)
+    finally:
+        sys.stdout, sys.stderr = real_out, real_err
+        sink.close()
+
+
+def _run_chunk(cases, prepared, reqs):
     for case in cases:
         gen, prep, judge = TOOLS[case["tool"]]
         try:
